@@ -186,16 +186,21 @@ def run(outdir):
     done = set()
     if os.path.exists(resf):
         done = {l.split()[0] for l in open(resf)}
-    for mid in surv:
-        if mid in done:
-            continue
+    sel = os.path.join(os.path.dirname(outdir.rstrip("/")), "sel.log")
+    if os.path.exists(sel):
+        done |= {l.split()[0] for l in open(sel) if len(l.split()) >= 3 and l.split()[2] == "exit=1"}
+    import threading
+    lock = threading.Lock()
+    jobs = int(os.environ.get("MUT_JOBS", "3"))
+
+    def one(mid):
         m = json.load(open(os.path.join(outdir, mid, "meta.json")))
         verdict = "UNDETECTED"
         tried = []
         if re.search(NO_PROPERTY, m["func"]) or "trace." in m["old"] or "trace != nil" in m["old"]:
-            with open(resf, "a") as f:
+            with lock, open(resf, "a") as f:
                 f.write("%s NO-PROPERTY %s:%d %s | %s -> %s |\n" % (mid, m["file"], m["line"], m["func"], m["old"], m["new"]))
-            continue
+            return
         for c in checks_for(m["func"])[:4]:
             p = subprocess.run([os.path.join(ROOT, "tools", "trymutant.sh"), os.path.join(outdir, mid, "patch.diff"), c], capture_output=True, text=True)
             last = p.stdout.strip().split("\n")[-1]
@@ -203,9 +208,12 @@ def run(outdir):
             if last == "exit=1":
                 verdict = "DETECTED(%s)" % c
                 break
-        with open(resf, "a") as f:
+        with lock, open(resf, "a") as f:
             f.write("%s %s %s:%d %s | %s -> %s | %s\n" % (mid, verdict, m["file"], m["line"], m["func"], m["old"], m["new"], " ".join(tried)))
         print(mid, verdict, flush=True)
+
+    with cf.ThreadPoolExecutor(max_workers=jobs) as ex:
+        list(ex.map(one, [m for m in surv if m not in done]))
 
 
 if __name__ == "__main__":
